@@ -32,7 +32,13 @@ class Site:
         return (self.body.path, self.kind, self.what)
 
 
+def _target(F):
+    """integer widths follow the analysed target (usize is 32 bit on i686 / wasm32)."""
+    WIDTH["usize"] = F.usize_bytes * 8
+
+
 def collect(F, roots, G=None):
+    _target(F)
     G = G or callgraph.CallGraph(F)
     reach = G.reach(roots)
     sites = []
@@ -276,7 +282,7 @@ def _table_values_factory(F):
             if c:
                 t = F.ty(c["ty"])
                 if t.get("k") == "array":
-                    es = {"u8": 1, "u16": 2, "u32": 4, "usize": 8, "u64": 8}.get(F.tys(t["elem"]))
+                    es = {"u8": 1, "u16": 2, "u32": 4, "usize": F.usize_bytes, "u64": 8}.get(F.tys(t["elem"]))
                     if es:
                         vals = F.const_array(path, es)
             cache[path] = vals
@@ -286,6 +292,7 @@ def _table_values_factory(F):
 
 
 def discharge(F, sites, envs):
+    _target(F)
     TABLES[0] = _table_values_factory(F)
     by_fn = {}
     for s in sites:
@@ -472,7 +479,7 @@ def array_len_of(F, b, e, env):
                 return t["len"]["v"]
             if t["k"] == "array" and t["len"].get("k") == "uneval":
                 bts = F.const_bytes(e[1])
-                es = {"u8": 1, "u16": 2, "u32": 4, "usize": 8, "u64": 8}.get(F.tys(t["elem"]))
+                es = {"u8": 1, "u16": 2, "u32": 4, "usize": F.usize_bytes, "u64": 8}.get(F.tys(t["elem"]))
                 if bts is not None and es:
                     return len(bts) // es
     if e[0] == "ref" or e[0] == "deref":
